@@ -74,7 +74,7 @@ def rand_log(rng, n_entries=None, invalid_rate=0.0, unknown_rate=0.0, max_args=6
     bad = []          # unknown source ids used so far: they come back (the same unknown id twice, an unknown id defined later)
     for _ in range(n_entries):
         r = rng.random()
-        if out and (invalid_rate > 0 or unknown_rate > 0) and rng.random() < 0.06:
+        if out and rng.random() < 0.06:
             j = rng.randrange(max(0, len(out) - 3), len(out))          # one of the last entries again, whatever it was
             out.append(out[j])
             if kinds is not None:
